@@ -94,11 +94,16 @@ EndpointSend(d, k, rel, kind, A1, A2, disp) ==
     /\ (kind = "msg" => A2 = <<>>)
     /\ Len(A1) + Len(A2) <= MaxAcks
     /\ Range(A1) \cap Range(A2) = {}
-    /\ (disp = "drop" /\ rel) => Cardinality(inj[r]) < MaxInj
+    /\ (disp \in {"drop", "take"} /\ rel) => Cardinality(inj[r]) < MaxInj
+    /\ disp = "take" => (kind = "msg" /\ Cardinality(inj[d]) < MaxInj)
     /\ epSent' = [epSent EXCEPT ![d] = @ \cup {k}]
     /\ epRel' = [epRel EXCEPT ![d] = IF rel THEN @ \cup {k} ELSE @]
     /\ ackedWire' = [ackedWire EXCEPT ![r] = @ \cup ackIds]
-    /\ Collect(d, ackIds)
+    /\ LET hit == {p \in pending : p.d = Opp(d) /\ p.w \in ackIds}
+           mine == IF disp = "take" /\ rel
+                   THEN {[d |-> d, w |-> base[d] + 1, tries |-> Tries, age |-> 0]} ELSE {}
+       IN /\ pending' = (pending \ hit) \cup mine
+          /\ done' = done \cup {[d |-> p.d, w |-> p.w, how |-> "acked"] : p \in hit}
     /\ IF disp = "fwd"
        THEN LET suppressed == kind = "pa" /\ T1 = <<>> /\ T2 = <<>> IN
             /\ base' = [base EXCEPT ![d] = IF w > @ THEN w ELSE @]
@@ -113,14 +118,22 @@ EndpointSend(d, k, rel, kind, A1, A2, disp) ==
                 \* the appended acks of the dropped packet travel on in a PacketAck of their own;
                 \* its packet ID is the proxy's choice (id 0 = not constrained)
                 passOn == IF T1 # <<>> THEN <<Rec(d, 0, "pa", FALSE, FALSE, <<>>, T1)>> ELSE <<>>
+                \* disp "take": an addon took the message (Message.take) and sends its copy on at once.  The
+                \* copy is a packet of the proxy's own: fresh ID of direction d, no acks, and if the original
+                \* was reliable it is the proxy that must now retransmit it until it is acknowledged.
+                cpy == base[d] + 1
+                copyOut == IF disp = "take" THEN <<Rec(d, cpy, "msg", rel, resend, <<>>, <<>>)>> ELSE <<>>
+                injD == IF disp = "take" THEN {cpy} ELSE {}
+                injR == IF rel THEN {new} ELSE {}
             IN
             /\ epDropped' = [epDropped EXCEPT ![d] = @ \cup {k}]
-            /\ inj' = [inj EXCEPT ![r] = IF rel THEN @ \cup {new} ELSE @]
-            /\ base' = [base EXCEPT ![r] = IF rel THEN new ELSE @]
-            /\ delivered' = [delivered EXCEPT ![r] = IF rel THEN @ \cup {new} ELSE @]
+            /\ inj' = [x \in D |-> inj[x] \cup (IF x = d THEN injD ELSE {}) \cup (IF x = r THEN injR ELSE {})]
+            /\ base' = [x \in D |-> IF x = d /\ disp = "take" THEN cpy
+                                    ELSE IF x = r /\ rel THEN new ELSE base[x]]
+            /\ delivered' = [x \in D |-> delivered[x] \cup (IF x = d THEN injD ELSE {}) \cup (IF x = r THEN injR ELSE {})]
             /\ shown' = [shown EXCEPT ![d] = IF rel THEN @ \cup {k} ELSE @,
                                       ![r] = @ \cup Range(T1)]
-            /\ out' = ackSender \o passOn
+            /\ out' = copyOut \o ackSender \o passOn
             /\ UNCHANGED fwdMap
 
 \* StartPingCheck carries the sender's oldest unacknowledged packet ID; the proxy rewrites it into
@@ -172,7 +185,7 @@ Tick(dt) ==
     /\ out' = ResendRecs(again)
     /\ UNCHANGED <<epSent, epRel, epDropped, inj, base, fwdMap, delivered, ackedWire, shown>>
 
-Next == \/ \E d \in D, k \in 1..MaxEp, rel \in BOOLEAN, kind \in {"msg", "pa"}, disp \in {"fwd", "drop"} :
+Next == \/ \E d \in D, k \in 1..MaxEp, rel \in BOOLEAN, kind \in {"msg", "pa"}, disp \in {"fwd", "drop", "take"} :
              \E A \in AckChoices(d, MaxAcks) :
                 \E n \in 0..Len(A) :      \* first n appended, the rest in PacketAck blocks
                     EndpointSend(d, k, rel, kind, SubSeq(A, 1, n), SubSeq(A, n + 1, Len(A)), disp)
@@ -202,7 +215,7 @@ CompletionExact == /\ \A p \in pending : p.w \notin ackedWire[p.d] /\ p.w \in in
                    /\ \A q \in done : q.how = "acked" => q.w \in ackedWire[q.d]
                    /\ \A q \in done : ~\E p \in pending : p.d = q.d /\ p.w = q.w
 \* nothing is retransmitted after completion, and retransmissions keep their ID
-ResendOnlyPending == \A i \in DOMAIN out : out[i].resent /\ out[i].name = "msg" /\ out[i].id \in inj[out[i].dir]
+ResendOnlyPending == \A i \in DOMAIN out : out[i].resent /\ out[i].rel /\ out[i].name = "msg" /\ out[i].id \in inj[out[i].dir]
                         => \E p \in pending : p.d = out[i].dir /\ p.w = out[i].id /\ p.age = 0
 \* the rewritten OldestUnacked never exceeds a wire ID the proxy still waits for
 OldestCoversPending == \A i \in DOMAIN out : out[i].name = "spc" =>
